@@ -1,6 +1,6 @@
 (* C11 — ONE whole-bus theorem for the union of the fragments: standard and enum signals, descriptions,
    attribute assignments of the four types (and hex) on bus, nodes, messages and signals together with the
-   six dedicated fields, and per message at most one simple multiplexer (standard children, one group each)
+   six dedicated fields, and per message at most one simple multiplexer (standard or enum children, one group each)
    whose message may carry attributes on every signal, the multiplexer and its children included.
    Structure: RoundTripMux on the stripped bus; attribute layer: RoundTripAttr's, with the signals of a
    message located by name / id instead of by position (the importer re-orders the signals of a message that
@@ -13,12 +13,7 @@ From Acme.C11 Require Import Strings Proofs RoundTrip RoundTripEnum RoundTripAtt
 Import ListNotations.
 Open Scope Z_scope.
 
-(* ---------------- the signals of a message in export order ---------------- *)
-Definition walk_of (sigs : list signal) (t : signal) : list signal :=
-  flat_map (fun id => filter (fun c => in_group c id) (children sigs t)) (zrange 0 (Z.to_nat (s_gcount t))).
-Definition SX (m : message) : list signal :=
-  flat_map (fun t => t :: (if is_muxb t then walk_of (m_signals m) t else [])) (filter is_topb (m_signals m)).
-
+(* ---------------- the assignments in export order (RoundTripMux.SX) ---------------- *)
 Definition TM_msg (m : message) : list tasg :=
   map (mktasg OMessage EmptyString (u32 (m_canid m)) EmptyString) (sort_attrs (m_attrs m) ++ wk_msg m)
   ++ flat_map (T_sig (u32 (m_canid m))) (SX m).
@@ -55,7 +50,7 @@ Section StripFacts.
   Qed.
 
   Lemma child_strip : forall c, In c sigs -> is_topb c = false ->
-    exists mx, In mx sigs /\ is_topb mx = true /\ is_muxb mx = true /\ child_ok (strip_sig mx) (strip_sig c).
+    exists mx, In mx sigs /\ is_topb mx = true /\ is_muxb mx = true /\ child_ok es (strip_sig mx) (strip_sig c).
   Proof.
     intros c Hc Hct. destruct Hms as [_ [_ [_ [_ [Hch _]]]]].
     destruct (Hch (strip_sig c) (in_map strip_sig _ _ Hc) Hct) as [mx' [Hmx' [Ht [Hm Hok]]]].
@@ -63,7 +58,7 @@ Section StripFacts.
   Qed.
 
   Lemma kids_strip : forall mx, In mx sigs -> is_muxb mx = true ->
-    Forall (fun c => child_ok (strip_sig mx) (strip_sig c)) (children sigs mx) /\
+    Forall (fun c => child_ok es (strip_sig mx) (strip_sig c)) (children sigs mx) /\
     NoDup (map (fun c => clear (s_name c)) (children sigs mx)).
   Proof.
     intros mx Hmx Hm. split.
@@ -83,36 +78,43 @@ Section GWalk.
   Hypothesis Hmx : In mx sigs.
   Hypothesis Hpm : s_parent mx = None.
   Let K := children sigs mx.
-  Hypothesis HK : Forall (fun c => child_ok (strip_sig mx) (strip_sig c)) K.
+  Hypothesis HK : Forall (fun c => child_ok es (strip_sig mx) (strip_sig c)) K.
   Hypothesis HKn : NoDup (map (fun c => clear (s_name c)) K).
 
   Lemma export_child_g : forall fuel c cms vs msgs sg L A,
-    child_ok (strip_sig mx) (strip_sig c) ->
+    child_ok es (strip_sig mx) (strip_sig c) ->
     export_signal es sigs order msgid recs many fuel c (gacc cms vs msgs sg L A)
-    = gacc cms vs msgs (sg ++ [child_dsig order recs mx 0 c]) L (fold_left exp_t (T_sig msgid c) A).
+    = gacc (cms ++ sig_cms msgid c) (vs ++ venc_e es msgid c) msgs (sg ++ [child_dsig es order recs mx 0 c]) (enums_step L c)
+           (fold_left exp_t (T_sig msgid c) A).
   Proof.
-    intros fuel c cms vs msgs sg L A [Hk [Hp [_ [Hd _]]]]. cbn [s_kind s_parent s_desc strip_sig s_id] in Hk, Hp, Hd.
+    intros fuel c cms vs msgs sg L A [Hk [Hp _]]. cbn [s_kind s_parent strip_sig s_id] in Hk, Hp.
     assert (Habs : abs_start (length sigs) sigs c = s_rel mx + sel_width mx + s_rel c).
     { destruct sigs as [|x r] eqn:Es; [destruct Hmx|]. rewrite <- Es in *.
       replace (length sigs) with (S (length r)) by (rewrite Es; reflexivity).
       cbn [abs_start]. rewrite Hp, (ProofsIds.find_sig_unique sigs mx Hids Hmx), abs_start_top by assumption. reflexivity. }
-    unfold T_sig, wk_sig.
-    destruct fuel; cbn [export_signal]; rewrite Hp, Hk, Hd, Habs; cbn [String.eqb]; rewrite asgs_gacc; reflexivity.
+    unfold sig_cms, opt_cm, venc_e, child_dsig, enums_step, e_of, T_sig, wk_sig.
+    assert (Hcm : forall x, add_comment x (gacc cms vs msgs sg L A) = gacc (cms ++ [x]) vs msgs sg L A) by reflexivity.
+    destruct fuel; cbn [export_signal]; rewrite Hp, Habs;
+      (destruct (String.eqb (s_desc c) EmptyString); [|rewrite Hcm]; rewrite asgs_gacc;
+       destruct (s_kind c); try (exfalso; apply Hk; reflexivity); cbn [app]; rewrite ?app_nil_r; reflexivity).
   Qed.
 
-  Lemma in_group_grp_s : forall c id, child_ok (strip_sig mx) (strip_sig c) -> in_group c id = (id =? grp c).
+  Lemma in_group_grp_s : forall c id, child_ok es (strip_sig mx) (strip_sig c) -> in_group c id = (id =? grp c).
   Proof.
     intros c id [_ [_ [[g [Hg _]] _]]]. cbn [s_groups strip_sig] in Hg. unfold in_group, grp. rewrite Hg. unfold mem_z. cbn [existsb]. rewrite orb_false_r. reflexivity.
   Qed.
 
   Lemma walk_inner_g : forall k id l S gmap names cms vs msgs sg L A,
-    Forall (fun c => child_ok (strip_sig mx) (strip_sig c)) l ->
+    Forall (fun c => child_ok es (strip_sig mx) (strip_sig c)) l ->
     (forall cn v, lookup String.eqb cn gmap = Some v -> In cn S) ->
     NoDup (map (fun c => clear (s_name c)) l) ->
     (forall c, In c l -> in_group c id = true -> ~ In (clear (s_name c)) S) ->
     exists gmap' names',
       fold_left (wstep es sigs order msgid recs many k id) l (gacc cms vs msgs sg L A, names, gmap, false, false)
-      = (gacc cms vs msgs (sg ++ map (child_dsig order recs mx (u32 id)) (filter (fun c => in_group c id) l)) L
+      = (gacc (cms ++ flat_map (sig_cms msgid) (filter (fun c => in_group c id) l))
+              (vs ++ flat_map (venc_e es msgid) (filter (fun c => in_group c id) l)) msgs
+              (sg ++ map (child_dsig es order recs mx (u32 id)) (filter (fun c => in_group c id) l))
+              (fold_left enums_step (filter (fun c => in_group c id) l) L)
               (fold_left exp_t (flat_map (T_sig msgid) (filter (fun c => in_group c id) l)) A), names', gmap', false, false) /\
       (forall cn v, lookup String.eqb cn gmap' = Some v -> In cn (S ++ map (fun c => clear (s_name c)) (filter (fun c => in_group c id) l))).
   Proof.
@@ -124,14 +126,17 @@ Section GWalk.
         { destruct (lookup String.eqb (clear (s_name c)) gmap) as [v|] eqn:El; [|reflexivity].
           exfalso. apply (HS c (or_introl eq_refl) Eg). eapply HG. exact El. }
         rewrite Hnone. rewrite (export_child_g k c) by assumption.
-        assert (Hk : s_kind c = KStandard) by (destruct Hc as [Hk _]; exact Hk). rewrite Hk. cbn [orb].
-        replace (set_sigs (set_last_switch (u32 id) (ea_sigs (gacc cms vs msgs (sg ++ [child_dsig order recs mx 0 c]) L (fold_left exp_t (T_sig msgid c) A))))
-                          (gacc cms vs msgs (sg ++ [child_dsig order recs mx 0 c]) L (fold_left exp_t (T_sig msgid c) A)))
-          with (gacc cms vs msgs (sg ++ [child_dsig order recs mx (u32 id) c]) L (fold_left exp_t (T_sig msgid c) A))
+        assert (Hk : match s_kind c with KMux => true | _ => false end = false).
+        { destruct Hc as [Hk _]. cbn [s_kind strip_sig] in Hk. destruct (s_kind c); try reflexivity. exfalso. apply Hk. reflexivity. }
+        rewrite Hk. cbn [orb].
+        replace (set_sigs (set_last_switch (u32 id) (ea_sigs (gacc (cms ++ sig_cms msgid c) (vs ++ venc_e es msgid c) msgs (sg ++ [child_dsig es order recs mx 0 c]) (enums_step L c) (fold_left exp_t (T_sig msgid c) A))))
+                          (gacc (cms ++ sig_cms msgid c) (vs ++ venc_e es msgid c) msgs (sg ++ [child_dsig es order recs mx 0 c]) (enums_step L c) (fold_left exp_t (T_sig msgid c) A)))
+          with (gacc (cms ++ sig_cms msgid c) (vs ++ venc_e es msgid c) msgs (sg ++ [child_dsig es order recs mx (u32 id) c]) (enums_step L c) (fold_left exp_t (T_sig msgid c) A))
           by (unfold gacc, set_sigs; cbn [ea_sigs ea_comments ea_attrs ea_attrdefs ea_attrvals ea_valencs ea_extmuxes ea_messages ea_names ea_enums];
-              rewrite set_last_switch_snoc; reflexivity).
-        destruct (IH (S ++ [clear (s_name c)]) ((clear (s_name c), [id]) :: gmap) (names ++ [clear (s_name c)]) cms vs msgs
-                     (sg ++ [child_dsig order recs mx (u32 id) c]) L (fold_left exp_t (T_sig msgid c) A) Hr) as [gmap' [names' [E1 E2]]].
+              rewrite set_last_switch_snoc, child_dsig_switch; reflexivity).
+        destruct (IH (S ++ [clear (s_name c)]) ((clear (s_name c), [id]) :: gmap) (names ++ [clear (s_name c)])
+                     (cms ++ sig_cms msgid c) (vs ++ venc_e es msgid c) msgs
+                     (sg ++ [child_dsig es order recs mx (u32 id) c]) (enums_step L c) (fold_left exp_t (T_sig msgid c) A) Hr) as [gmap' [names' [E1 E2]]].
         * intros cn v Hlk. cbn [lookup] in Hlk. destruct (String.eqb cn (clear (s_name c))) eqn:E.
           -- apply String.eqb_eq in E. subst. apply in_or_app. right. left. reflexivity.
           -- apply in_or_app. left. eapply HG. exact Hlk.
@@ -140,7 +145,7 @@ Section GWalk.
           -- apply (HS c' (or_intror Hc') Hg' Hin).
           -- apply Hni. rewrite Hin. apply (in_map (fun c => clear (s_name c))). assumption.
         * exists gmap', names'. split.
-          -- rewrite E1. cbn [map flat_map]. rewrite fold_left_app, <- app_assoc. reflexivity.
+          -- rewrite E1. cbn [map flat_map fold_left]. rewrite fold_left_app, <- !app_assoc. reflexivity.
           -- intros cn v Hlk. specialize (E2 cn v Hlk). cbn [map]. rewrite <- app_assoc in E2. exact E2.
       + apply IH; try assumption. intros c' Hc'. apply HS. right. assumption.
   Qed.
@@ -151,18 +156,22 @@ Section GWalk.
     (forall c, In c K -> In (clear (s_name c)) S -> ~ In (grp c) ids) ->
     exists gmap' names',
       fold_left (fun st id => fold_left (wstep es sigs order msgid recs many k id) K st) ids (gacc cms vs msgs sg L A, names, gmap, false, false)
-      = (gacc cms vs msgs (sg ++ wsigs sigs order recs mx ids) L
-              (fold_left exp_t (flat_map (T_sig msgid) (flat_map (fun id => filter (fun c => in_group c id) K) ids)) A), names', gmap', false, false).
+      = (gacc (cms ++ flat_map (sig_cms msgid) (wall sigs mx ids)) (vs ++ flat_map (venc_e es msgid) (wall sigs mx ids)) msgs
+              (sg ++ wsigs es sigs order recs mx ids) (fold_left enums_step (wall sigs mx ids) L)
+              (fold_left exp_t (flat_map (T_sig msgid) (wall sigs mx ids)) A), names', gmap', false, false).
   Proof.
-    intros k ids. induction ids as [|id r IH]; intros S gmap names cms vs msgs sg L A Hnd HG HS; cbn [fold_left wsigs flat_map].
-    - exists gmap, names. rewrite app_nil_r. reflexivity.
+    intros k ids. induction ids as [|id r IH]; intros S gmap names cms vs msgs sg L A Hnd HG HS; cbn [fold_left wsigs wall flat_map].
+    - exists gmap, names. rewrite !app_nil_r. reflexivity.
     - inversion Hnd as [|? ? Hni Hr]; subst.
       destruct (walk_inner_g k id K S gmap names cms vs msgs sg L A HK HG HKn) as [gmap1 [names1 [E1 E2]]].
       { intros c Hc Hg Hin. apply (HS c Hc Hin). left. rewrite (in_group_grp_s c id) in Hg by (rewrite Forall_forall in HK; apply HK; assumption).
         apply Z.eqb_eq in Hg. exact Hg. }
       rewrite E1.
-      destruct (IH (S ++ map (fun c => clear (s_name c)) (filter (fun c => in_group c id) K)) gmap1 names1 cms vs msgs
-                   (sg ++ map (child_dsig order recs mx (u32 id)) (filter (fun c => in_group c id) K)) L
+      destruct (IH (S ++ map (fun c => clear (s_name c)) (filter (fun c => in_group c id) K)) gmap1 names1
+                   (cms ++ flat_map (sig_cms msgid) (filter (fun c => in_group c id) K))
+                   (vs ++ flat_map (venc_e es msgid) (filter (fun c => in_group c id) K)) msgs
+                   (sg ++ map (child_dsig es order recs mx (u32 id)) (filter (fun c => in_group c id) K))
+                   (fold_left enums_step (filter (fun c => in_group c id) K) L)
                    (fold_left exp_t (flat_map (T_sig msgid) (filter (fun c => in_group c id) K)) A) Hr E2) as [gmap' [names' E]].
       { intros c Hc Hin Hg. apply in_app_or in Hin. destruct Hin as [Hin|Hin].
         - apply (HS c Hc Hin). right. assumption.
@@ -170,27 +179,29 @@ Section GWalk.
           assert (c' = c) by (apply (NoDup_map_inj (fun c => clear (s_name c)) K); assumption). subst c'.
           rewrite (in_group_grp_s c id) in Hg' by (rewrite Forall_forall in HK; apply HK; assumption).
           apply Z.eqb_eq in Hg'. apply Hni. rewrite Hg'. exact Hg. }
-      exists gmap', names'. rewrite E. unfold wsigs. rewrite flat_map_app, fold_left_app, <- app_assoc. reflexivity.
+      exists gmap', names'. rewrite E. unfold wsigs, wall. fold K. rewrite !flat_map_app, !fold_left_app, <- !app_assoc. reflexivity.
   Qed.
 End GWalk.
 
 Lemma export_top_g : forall es sigs order msgid recs k s cms vs msgs sg L A,
   NoDup (map s_id sigs) -> In s sigs -> top_ok es (strip_sig s) ->
-  (is_muxb s = true -> Forall (fun c => child_ok (strip_sig s) (strip_sig c)) (children sigs s) /\
+  (is_muxb s = true -> Forall (fun c => child_ok es (strip_sig s) (strip_sig c)) (children sigs s) /\
                        NoDup (map (fun c => clear (s_name c)) (children sigs s))) ->
   export_signal es sigs order msgid recs false (S k) s (gacc cms vs msgs sg L A)
-  = gacc (cms ++ sig_cms msgid s) (vs ++ venc_e es msgid s) msgs (sg ++ tdsigs es sigs order recs s) (enums_step L s)
-         (fold_left exp_t (flat_map (T_sig msgid) (s :: (if is_muxb s then walk_of sigs s else []))) A).
+  = gacc (cms ++ flat_map (sig_cms msgid) (tx sigs s)) (vs ++ flat_map (venc_e es msgid) (tx sigs s)) msgs
+         (sg ++ tdsigs es sigs order recs s) (fold_left enums_step (tx sigs s) L)
+         (fold_left exp_t (flat_map (T_sig msgid) (tx sigs s)) A).
 Proof.
   intros es sigs order msgid recs k s cms vs msgs sg L A Hids Hin Htop Hkids.
   destruct Htop as [Hp [Hg [_ [_ [_ [Hr Hm]]]]]]. cbn [s_parent s_groups s_rel s_kind strip_sig s_size s_gcount s_gsize] in Hp, Hg, Hr, Hm.
   destruct (s_kind s) eqn:Ek.
-  - unfold tdsigs, is_muxb. rewrite Ek. cbn [flat_map]. rewrite app_nil_r. apply export_signal_g.
+  - unfold tdsigs, tx, is_muxb. rewrite Ek. cbn [flat_map fold_left]. rewrite !app_nil_r. apply export_signal_g.
     unfold esig_ok. cbn [s_parent s_groups s_startval s_sendtype s_attrs s_rel s_kind strip_sig s_size]. rewrite Ek. auto 10.
-  - unfold tdsigs, is_muxb. rewrite Ek. cbn [flat_map]. rewrite app_nil_r. apply export_signal_g.
+  - unfold tdsigs, tx, is_muxb. rewrite Ek. cbn [flat_map fold_left]. rewrite !app_nil_r. apply export_signal_g.
     unfold esig_ok. cbn [s_parent s_groups s_startval s_sendtype s_attrs s_rel s_kind strip_sig s_size]. rewrite Ek. auto 10.
   - destruct (Hkids ltac:(unfold is_muxb; rewrite Ek; reflexivity)) as [HK HKn].
-    unfold sig_cms, opt_cm, venc_e, enums_step, tdsigs, is_muxb. rewrite Ek. rewrite app_nil_r.
+    unfold tdsigs, tx, is_muxb. rewrite Ek. cbn [flat_map fold_left].
+    unfold sig_cms at 1, opt_cm, venc_e at 1, enums_step at 2. rewrite Ek. cbn [app].
     cbn [export_signal]. rewrite Hp, Ek.
     rewrite abs_start_top by assumption.
     assert (Hcm : (if String.eqb (s_desc s) EmptyString then gacc cms vs msgs sg L A
@@ -206,29 +217,32 @@ Proof.
     + intros c _ [].
     + match goal with |- context[fold_left ?f (zrange 0 ?n) ?init] =>
         replace (fold_left f (zrange 0 n) init) with
-          (gacc (cms ++ (if String.eqb (s_desc s) EmptyString then [] else [mkdcomment OSignal (s_desc s) EmptyString msgid (clear (s_name s))]))
-                vs msgs ((sg ++ [mux_dsig order recs s]) ++ wsigs sigs order recs s (zrange 0 (Z.to_nat (s_gcount s)))) L
-                (fold_left exp_t (flat_map (T_sig msgid) (flat_map (fun id => filter (fun c => in_group c id) (children sigs s)) (zrange 0 (Z.to_nat (s_gcount s))))) (fold_left exp_t (T_sig msgid s) A)),
+          (gacc ((cms ++ (if String.eqb (s_desc s) EmptyString then [] else [mkdcomment OSignal (s_desc s) EmptyString msgid (clear (s_name s))]))
+                 ++ flat_map (sig_cms msgid) (wall sigs s (zrange 0 (Z.to_nat (s_gcount s)))))
+                (vs ++ flat_map (venc_e es msgid) (wall sigs s (zrange 0 (Z.to_nat (s_gcount s))))) msgs
+                ((sg ++ [mux_dsig order recs s]) ++ wsigs es sigs order recs s (zrange 0 (Z.to_nat (s_gcount s))))
+                (fold_left enums_step (wall sigs s (zrange 0 (Z.to_nat (s_gcount s)))) L)
+                (fold_left exp_t (flat_map (T_sig msgid) (wall sigs s (zrange 0 (Z.to_nat (s_gcount s))))) (fold_left exp_t (T_sig msgid s) A)),
            names', gmap', false, false)
           by (symmetry; exact E) end.
-      cbn [negb andb flat_map]. unfold walk_of. rewrite fold_left_app, <- app_assoc. reflexivity.
+      cbn [negb andb]. change (walk_of sigs s) with (wall sigs s (zrange 0 (Z.to_nat (s_gcount s)))). rewrite fold_left_app, <- !app_assoc. reflexivity.
 Qed.
 
 Lemma export_tops_g : forall es sigs order msgid recs k l cms vs msgs sg L A,
   NoDup (map s_id sigs) ->
   (forall s, In s l -> In s sigs /\ top_ok es (strip_sig s) /\
-     (is_muxb s = true -> Forall (fun c => child_ok (strip_sig s) (strip_sig c)) (children sigs s) /\
+     (is_muxb s = true -> Forall (fun c => child_ok es (strip_sig s) (strip_sig c)) (children sigs s) /\
                           NoDup (map (fun c => clear (s_name c)) (children sigs s)))) ->
   fold_left (fun a s => export_signal es sigs order msgid recs false (S k) s a) l (gacc cms vs msgs sg L A)
-  = gacc (cms ++ flat_map (sig_cms msgid) l) (vs ++ flat_map (venc_e es msgid) l) msgs
-         (sg ++ flat_map (tdsigs es sigs order recs) l) (fold_left enums_step l L)
-         (fold_left exp_t (flat_map (T_sig msgid) (flat_map (fun t => t :: (if is_muxb t then walk_of sigs t else [])) l)) A).
+  = gacc (cms ++ flat_map (sig_cms msgid) (flat_map (tx sigs) l)) (vs ++ flat_map (venc_e es msgid) (flat_map (tx sigs) l)) msgs
+         (sg ++ flat_map (tdsigs es sigs order recs) l) (fold_left enums_step (flat_map (tx sigs) l) L)
+         (fold_left exp_t (flat_map (T_sig msgid) (flat_map (tx sigs) l)) A).
 Proof.
   intros es sigs order msgid recs k l. induction l as [|s r IH]; intros cms vs msgs sg L A Hids H; cbn [fold_left flat_map].
   - rewrite !app_nil_r. reflexivity.
   - destruct (H s (or_introl eq_refl)) as [H1 [H2 H3]]. rewrite export_top_g by assumption.
     rewrite IH by (try assumption; intros x Hx; apply H; right; assumption).
-    rewrite flat_map_app, fold_left_app, <- !app_assoc. reflexivity.
+    rewrite !flat_map_app, !fold_left_app, <- !app_assoc. reflexivity.
 Qed.
 
 (* ---------------- stripping commutes with what the exporter computes from the signal list ---------------- *)
@@ -251,6 +265,10 @@ Qed.
 Lemma children_strip : forall sigs t, children (map strip_sig sigs) (strip_sig t) = map strip_sig (children sigs t).
 Proof. intros sigs t. unfold children. rewrite filter_map_comm, sort_by_map. reflexivity. Qed.
 
+Lemma child_dsig_strip : forall es o recs mx g c,
+  child_dsig es o recs (strip_sig mx) g (strip_sig c) = child_dsig es o recs mx g c.
+Proof. intros. reflexivity. Qed.
+
 Lemma tdsigs_strip : forall es sigs o recs t,
   tdsigs es (map strip_sig sigs) o recs (strip_sig t) = tdsigs es sigs o recs t.
 Proof.
@@ -270,7 +288,7 @@ Qed.
 Lemma export_message_mg : forall names es m cms vs msgs sigs0 L A,
   mmessage es names (strip_msg m) ->
   export_message es m (gacc cms vs msgs sigs0 L A)
-  = gacc (cms ++ msg_cms m) (vs ++ msg_vencs es m) (msgs ++ [dmsg_m es m]) [] (fold_left enums_step (filter is_topb (m_signals m)) L)
+  = gacc (cms ++ msg_cms (xmsg m)) (vs ++ msg_vencs es (xmsg m)) (msgs ++ [dmsg_m es m]) [] (fold_left enums_step (SX m) L)
          (fold_left exp_t (TM_msg m) A).
 Proof.
   intros names es m cms vs msgs sigs0 L A Hmm.
@@ -279,7 +297,7 @@ Proof.
   unfold export_message. cbv zeta.
   change (filter (fun s => match s_parent s with None => true | Some _ => false end) (m_signals m)) with (filter is_topb (m_signals m)).
   assert (Htops : forall t, In t (filter is_topb (m_signals m)) -> In t (m_signals m) /\ top_ok es (strip_sig t) /\
-             (is_muxb t = true -> Forall (fun c => child_ok (strip_sig t) (strip_sig c)) (children (m_signals m) t) /\
+             (is_muxb t = true -> Forall (fun c => child_ok es (strip_sig t) (strip_sig c)) (children (m_signals m) t) /\
                                   NoDup (map (fun c => clear (s_name c)) (children (m_signals m) t)))).
   { intros t Ht. apply filter_In in Ht. destruct Ht as [Ht Htt]. split; [assumption|]. split; [apply (top_strip es names m Hmm t Ht Htt)|].
     intros Hm. apply (kids_strip es names m Hmm t Ht Hm). }
@@ -301,37 +319,24 @@ Proof.
   { unfold opt_cm. destruct (String.eqb (m_desc m) EmptyString); [rewrite app_nil_r|]; reflexivity. }
   rewrite Hacc. fold (wk_msg m). rewrite asgs_gacc.
   change (set_sigs [] (gacc ?c ?v ?ms ?sg ?l ?a)) with (gacc c v ms [] l a).
-  (* the children contribute neither comments nor VAL_ lines *)
-  assert (Hcc : flat_map (sig_cms (u32 (m_canid m))) (filter is_topb (m_signals m)) = flat_map (sig_cms (u32 (m_canid m))) (m_signals m) /\
-                flat_map (venc_e es (u32 (m_canid m))) (filter is_topb (m_signals m)) = flat_map (venc_e es (u32 (m_canid m))) (m_signals m)).
-  { assert (G : forall l, (forall c, In c l -> In c (m_signals m)) ->
-              flat_map (sig_cms (u32 (m_canid m))) (filter is_topb l) = flat_map (sig_cms (u32 (m_canid m))) l /\
-              flat_map (venc_e es (u32 (m_canid m))) (filter is_topb l) = flat_map (venc_e es (u32 (m_canid m))) l).
-    { induction l as [|s r IH]; intros Hl; [split; reflexivity|]. cbn [filter flat_map].
-      destruct (IH (fun c Hc => Hl c (or_intror Hc))) as [I1 I2].
-      destruct (is_topb s) eqn:Et; cbn [flat_map]; [rewrite I1, I2; split; reflexivity|].
-      destruct (child_strip es names m Hmm s (Hl s (or_introl eq_refl)) Et) as [mx [_ [_ [_ [Hk [_ [_ [Hd _]]]]]]]].
-      cbn [s_kind s_desc strip_sig] in Hk, Hd.
-      rewrite I1, I2. unfold sig_cms at 2, opt_cm, venc_e at 2. rewrite Hd, Hk. cbn. split; reflexivity. }
-    apply G. auto. }
-  destruct Hcc as [C1 C2].
+  unfold msg_cms, msg_vencs, xmsg. cbn [m_desc m_canid m_signals set_m_signals]. unfold TM_msg, SX.
   destruct (m_signals m) as [|s0 r0] eqn:Es.
-  - cbn [filter fold_left length flat_map]. unfold msg_cms, msg_vencs, dmsg_m, TM_msg, SX, gacc, add_message. rewrite Es. cbn. rewrite !app_nil_r. reflexivity.
+  - cbn [filter fold_left length flat_map]. unfold dmsg_m, gacc, add_message. rewrite Es. cbn. rewrite !app_nil_r. reflexivity.
   - rewrite <- Es in *. replace (length (m_signals m)) with (S (length r0)) by (rewrite Es; reflexivity).
     rewrite export_tops_g; [|apply (ids_nodup es names m Hmm)|exact Htops].
-    unfold msg_cms, msg_vencs, dmsg_m, TM_msg, SX, gacc, add_message. rewrite C1, C2. cbn. rewrite fold_left_app, <- ?app_assoc. reflexivity.
+    unfold dmsg_m, gacc, add_message. cbn. rewrite fold_left_app, <- ?app_assoc. reflexivity.
 Qed.
 
 Lemma export_messages_mg : forall names es l cms vs msgs L A,
   Forall (fun m => mmessage es names (strip_msg m)) l ->
   exists L', fold_left (fun a m => export_message es m a) l (gacc cms vs msgs [] L A)
-  = gacc (cms ++ flat_map msg_cms l) (vs ++ flat_map (msg_vencs es) l) (msgs ++ map (dmsg_m es) l) [] L'
+  = gacc (cms ++ flat_map msg_cms (map xmsg l)) (vs ++ flat_map (msg_vencs es) (map xmsg l)) (msgs ++ map (dmsg_m es) l) [] L'
          (fold_left exp_t (flat_map TM_msg l) A).
 Proof.
   intros names es l. induction l as [|m r IH]; intros cms vs msgs L A H; cbn [fold_left map flat_map].
   - exists L. rewrite !app_nil_r. reflexivity.
   - inversion H; subst. rewrite (export_message_mg names) by assumption.
-    destruct (IH (cms ++ msg_cms m) (vs ++ msg_vencs es m) (msgs ++ [dmsg_m es m]) (fold_left enums_step (filter is_topb (m_signals m)) L)
+    destruct (IH (cms ++ msg_cms (xmsg m)) (vs ++ msg_vencs es (xmsg m)) (msgs ++ [dmsg_m es m]) (fold_left enums_step (SX m) L)
                  (fold_left exp_t (TM_msg m) A)) as [L' E]; [assumption|].
     exists L'. rewrite E. rewrite fold_left_app, <- !app_assoc. reflexivity.
 Qed.
@@ -339,8 +344,8 @@ Qed.
 Definition AM_of (b : bus) : eacc := fold_left exp_t (TM_bus b) empty_acc.
 Definition amdoc (b : bus) (L : list Z) : doc :=
   mkdoc (b_name b) (map (fun n => clear (n_name n)) (b_nodes b)) (map (table_of (b_enums b)) L)
-        (map (dmsg_m (b_enums b)) (b_messages b)) (doc_cms b)
-        (ea_attrs (AM_of b)) (ea_attrdefs (AM_of b)) (ea_attrvals (AM_of b)) (bus_vencs b) [].
+        (map (dmsg_m (b_enums b)) (b_messages b)) (doc_cms (xbus b))
+        (ea_attrs (AM_of b)) (ea_attrdefs (AM_of b)) (ea_attrvals (AM_of b)) (bus_vencs (xbus b)) [].
 
 Lemma strip_msgs_m : forall es names l, Forall (mmessage es names) (map strip_msg l) -> Forall (fun m => mmessage es names (strip_msg m)) l.
 Proof. intros es names l H. induction l as [|m r IH]; [constructor|]. cbn [map] in H. inversion H; subst. constructor; auto. Qed.
@@ -359,8 +364,8 @@ Proof.
         fold_left (fun a m => export_message (b_enums b) m a)
                   (filter (fun m => String.eqb (m_sender m) (n_name n)) (b_messages b)) a)
       nodes (gacc cms0 vs0 msgs0 [] L0 A0)
-    = gacc (cms0 ++ flat_map (node_cms b) nodes)
-           (vs0 ++ flat_map (msg_vencs (b_enums b)) (flat_map (fun n => filter (fun m => String.eqb (m_sender m) (n_name n)) (b_messages b)) nodes))
+    = gacc (cms0 ++ flat_map (node_cms (xbus b)) nodes)
+           (vs0 ++ flat_map (msg_vencs (b_enums b)) (map xmsg (flat_map (fun n => filter (fun m => String.eqb (m_sender m) (n_name n)) (b_messages b)) nodes)))
            (msgs0 ++ map (dmsg_m (b_enums b)) (flat_map (fun n => filter (fun m => String.eqb (m_sender m) (n_name n)) (b_messages b)) nodes)) [] L1
            (fold_left exp_t (flat_map (TM_node b) nodes) A0)).
   { induction nodes as [|n r IH]; intros cms0 vs0 msgs0 L0 A0; cbn [fold_left flat_map map].
@@ -374,8 +379,8 @@ Proof.
         destruct (export_messages_mg (map n_name (map strip_node (b_nodes b))) (b_enums b) l c v ms L a) as [L2 E2]; [apply Forall_filter; assumption|] end.
       rewrite E2.
       match goal with |- exists L1, fold_left ?f r (gacc ?c ?v ?m [] ?l ?a) = _ => destruct (IH c v m l a) as [L1 E] end.
-      exists L1. refine (eq_trans E _). unfold node_cms, TM_node.
-      rewrite !flat_map_app, map_app, !fold_left_app, <- !app_assoc. reflexivity. }
+      exists L1. refine (eq_trans E _). unfold node_cms, TM_node, xbus. cbn [b_messages set_b_messages]. rewrite filter_xmsg.
+      rewrite !map_app, !flat_map_app, !fold_left_app, <- !app_assoc. reflexivity. }
   assert (H0 : (if String.eqb (b_desc b) EmptyString then mkeacc [] [] [] [] [] [] [] [] [] []
                 else add_comment (mkdcomment OGeneral (b_desc b) EmptyString 0 EmptyString) (mkeacc [] [] [] [] [] [] [] [] [] []))
                = gacc (opt_cm (b_desc b) (mkdcomment OGeneral (b_desc b) EmptyString 0 EmptyString)) [] [] [] [] empty_acc).
@@ -830,42 +835,20 @@ Proof.
   rewrite Forall_forall in Hps. eapply proj_signal_e; [apply Hps; exact Hs|apply Hwf; exact Hs|exact HRx].
 Qed.
 
-Lemma Fimg_facts : forall es env names m mx mid gs S',
-  mmessage es names m -> In mx (m_signals m) -> is_muxb mx = true ->
-  (forall s, In s (m_signals m) -> is_muxb s = false ->
-     lookup key_eqb (u32 (m_canid m), clear (s_name s)) (ie_sig_enums env) = None /\
-     desc_of key_eqb (u32 (m_canid m), clear (s_name s)) (ie_sig_desc env) = s_desc s) ->
-  Permutation (m_signals m) S' ->
-  forall p, In p (index_from 0 S') ->
-    s_name (Fimg es env m mx mid gs p) = clear (s_name (snd p)) /\
-    s_attrs (Fimg es env m mx mid gs p) = [] /\ s_startval (Fimg es env m mx mid gs p) = fl_zero /\
-    s_sendtype (Fimg es env m mx mid gs p) = 0.
-Proof.
-  intros es env names m mx mid gs S' Hmm Hmx Hmxm Henv HpS p Hp.
-  pose proof (X_in m S' HpS p Hp) as Hs.
-  pose proof Hmm as [_ [_ [_ [_ [_ [_ [_ [[_ [_ [_ [Hu _]]]] _]]]]]]]].
-  unfold Fimg. destruct (is_muxb (snd p)) eqn:Em.
-  - rewrite (Hu (snd p) mx Hs Hmx Em Hmxm). cbn. auto.
-  - assert (Hne : snd p <> mx) by (intros E; rewrite E in Em; congruence).
-    destruct (img_fields es env m mx names Hmm Hmx Hmxm Henv (snd p) Hs Hne) as [Hn _].
-    destruct (is_topb (snd p)); unfold timg, kimg, std_imp, Import.place; cbn [s_name s_attrs s_startval s_sendtype]; auto.
-Qed.
-
-Lemma base_mux : forall names es env es' ms mx mid gs S',
+Lemma base_mux : forall names es st ms mx mid gs EI S',
   mmessage es names ms -> In mx (m_signals ms) -> is_muxb mx = true ->
-  (forall s, In s (m_signals ms) -> is_muxb s = false ->
-     lookup key_eqb (u32 (m_canid ms), clear (s_name s)) (ie_sig_enums env) = None /\
-     desc_of key_eqb (u32 (m_canid ms), clear (s_name s)) (ie_sig_desc env) = s_desc s) ->
+  (forall s, In s (m_signals ms) -> enum_wf (e_of es s)) ->
+  (forall s, In s (m_signals ms) -> s <> mx -> EIok es st s (EI s)) ->
   Permutation (m_signals ms) S' -> In (mid, mx) (index_from 0 S') ->
-  Base es es' ms (mkmessage (m_canid ms) (clear (m_name ms)) (m_size ms) (m_order ms) 0 0 0 0 (clear (m_sender ms)) (recs_in ms) (m_desc ms) []
-                            (mux_result es env ms mx mid gs S')).
+  Base es (is_enums st) ms (mkmessage (m_canid ms) (clear (m_name ms)) (m_size ms) (m_order ms) 0 0 0 0 (clear (m_sender ms)) (recs_in ms) (m_desc ms) []
+                            (mux_result mx mid gs EI S')).
 Proof.
-  intros names es env es' ms mx mid gs S' Hmm Hmx Hmxm Henv HpS Hmid.
-  exists (m_order ms), (mux_result es env ms mx mid gs S'). split; [reflexivity|]. split; [reflexivity|].
-  split; [apply (R_ids es env names ms mx mid gs S'); assumption|].
-  pose proof (R_map es env names ms mx mid gs S' Hmm Hmx Hmxm HpS) as HRm.
+  intros names es st ms mx mid gs EI S' Hmm Hmx Hmxm Hwf HEI HpS Hmid.
+  exists (m_order ms), (mux_result mx mid gs EI S'). split; [reflexivity|]. split; [reflexivity|].
+  split; [apply (R_ids es names ms mx mid gs EI S'); assumption|].
+  pose proof (R_map es names ms mx mid gs EI S' Hmm Hmx Hmxm HpS) as HRm.
   pose proof (XY_perm es names ms mx mid S' Hmm Hmx Hmxm HpS Hmid) as HXY.
-  pose proof (Fimg_facts es env names ms mx mid gs S' Hmm Hmx Hmxm Henv HpS) as HF.
+  pose proof (Fimg_facts es names ms mx mid gs EI S' Hmm Hmx Hmxm HpS) as HF.
   split.
   { rewrite HRm, map_map.
     eapply Permutation_trans; [apply Permutation_map; apply Permutation_sym; exact HXY|].
@@ -875,24 +858,19 @@ Proof.
   intros s Hs. assert (Hs' : In s S') by (eapply Permutation_in; [exact HpS|exact Hs]).
   destruct (in_index_from S' 0 s Hs') as [i Hi].
   destruct (HF (i, s) Hi) as [F1 [F2 [F3 F4]]]. cbn [snd] in F1.
-  exists (Fimg es env ms mx mid gs (i, s)). split.
+  exists (Fimg mx mid gs EI (i, s)). split.
   { rewrite HRm. apply in_map. eapply Permutation_in; [exact HXY|exact Hi]. }
   refine (conj F1 (conj F2 (conj F3 (conj F4 _)))).
-  apply (proj_pt es env names ms mx mid gs S' Hmm Hmx Hmxm Henv HpS Hmid es' (i, s) Hi).
+  apply (proj_pt es st names ms mx mid gs EI S' Hmm Hmx Hmxm Hwf HEI HpS Hmid (i, s) Hi).
 Qed.
 
-Lemma base_of_Rmsg_m : forall names es env st ms m',
+Lemma base_of_Rmsg_m : forall names es st ms m',
   mmessage es names ms -> (forall s, In s (m_signals ms) -> enum_wf (e_of es s)) ->
-  (forall s, In s (m_signals ms) ->
-     desc_of key_eqb (u32 (m_canid ms), clear (s_name s)) (ie_sig_desc env) = s_desc s /\
-     (s_kind s = KStandard -> lookup key_eqb (u32 (m_canid ms), clear (s_name s)) (ie_sig_enums env) = None)) ->
-  Rmsg_m es env st ms m' -> Base es (is_enums st) ms m'.
+  Rmsg_m es st ms m' -> Base es (is_enums st) ms m'.
 Proof.
-  intros names es env st ms m' Hmm Hwf Henv [[Hnm HR]|[mx [mid [gs [S' [Hmx [Hmxm [-> [HpS [Hmid Hgs]]]]]]]]]].
+  intros names es st ms m' Hmm Hwf [[Hnm HR]|[mx [mid [gs [S' [EI [Hmx [Hmxm [-> [HpS [Hmid [Hgs HEI]]]]]]]]]]]].
   - destruct (mmessage_plain es names ms Hmm Hnm) as [Hem _]. eapply base_plain; eauto.
-  - pose proof Hmm as [_ [_ [_ [_ [_ [_ [_ [[_ [_ [_ [_ [_ [_ Hstd]]]]]] _]]]]]]]].
-    apply (base_mux names); try assumption.
-    intros s Hs Hn. destruct (Henv s Hs) as [Hd Hl]. split; [apply Hl; exact (Hstd mx s Hmx Hmxm Hs Hn)|exact Hd].
+  - apply (base_mux names); assumption.
 Qed.
 
 (* ---------------- one message of the attribute section ---------------- *)
@@ -983,23 +961,34 @@ Proof.
   exists s'. cbn [m_signals m_canid strip_msg s_name strip_sig] in *. auto.
 Qed.
 
-Lemma Forall2_conj_base : forall names es env st l l',
+Lemma Forall2_conj_base : forall names es st l l',
   Forall (fun m => mmessage es names (strip_msg m)) l ->
   (forall m, In m l -> forall s, In s (m_signals (strip_msg m)) -> enum_wf (e_of es s)) ->
-  (forall m s, In m l -> In s (m_signals (strip_msg m)) ->
-     desc_of key_eqb (u32 (m_canid (strip_msg m)), clear (s_name s)) (ie_sig_desc env) = s_desc s /\
-     (s_kind s = KStandard -> lookup key_eqb (u32 (m_canid (strip_msg m)), clear (s_name s)) (ie_sig_enums env) = None)) ->
-  Forall2 (fun m m' => Rmsg_m es env st (strip_msg m) m') l l' ->
+  Forall2 (fun m m' => Rmsg_m es st (strip_msg m) m') l l' ->
   Forall2 (fun m m' => Base es (is_enums st) (strip_msg m) m') l l'.
 Proof.
-  intros names es env st l l' Hmm Hwf Henv HF. induction HF as [|m m' r r' HR HF IH]; [constructor|].
+  intros names es st l l' Hmm Hwf HF. induction HF as [|m m' r r' HR HF IH]; [constructor|].
   inversion Hmm as [|? ? Hm Hr]; subst. constructor.
-  - eapply base_of_Rmsg_m; [exact Hm| | |exact HR].
-    + intros s Hs. apply (Hwf m (or_introl eq_refl) s Hs).
-    + intros s Hs. apply (Henv m s (or_introl eq_refl) Hs).
-  - apply IH; [assumption| |].
-    + intros m0 Hm0. apply Hwf. right. assumption.
-    + intros m0 s Hm0. apply Henv. right. assumption.
+  - eapply base_of_Rmsg_m; [exact Hm| |exact HR]. intros s Hs. apply (Hwf m (or_introl eq_refl) s Hs).
+  - apply IH; [assumption|]. intros m0 Hm0. apply Hwf. right. assumption.
+Qed.
+
+(* export order and stripping commute *)
+Lemma walk_of_strip : forall sigs t, walk_of (map strip_sig sigs) (strip_sig t) = map strip_sig (walk_of sigs t).
+Proof.
+  intros sigs t. unfold walk_of. cbn [s_gcount strip_sig]. rewrite children_strip, map_flat_map.
+  apply flat_map_ext_in_simple. intros id _. rewrite filter_map_comm. reflexivity.
+Qed.
+Lemma SX_strip_msg : forall m, SX (strip_msg m) = map strip_sig (SX m).
+Proof.
+  intros m. unfold SX. cbn [m_signals strip_msg]. rewrite filter_map_comm. change (fun x => is_topb (strip_sig x)) with is_topb.
+  induction (filter is_topb (m_signals m)) as [|t r IH]; [reflexivity|]. cbn [map flat_map]. rewrite map_app, IH. f_equal.
+  unfold tx. cbn [map]. change (is_muxb (strip_sig t)) with (is_muxb t). destruct (is_muxb t); [rewrite walk_of_strip|]; reflexivity.
+Qed.
+Lemma xbus_strip : forall b, xbus (strip_bus b) = strip_bus (xbus b).
+Proof.
+  intros b. unfold xbus, strip_bus, set_b_messages. cbn [b_name b_desc b_attrs b_nodes b_enums b_messages]. f_equal.
+  rewrite !map_map. apply map_ext. intros m. unfold xmsg. rewrite SX_strip_msg. reflexivity.
 Qed.
 
 Definition all_result (b : bus) (es' : list enum_def) (msgs' : list message) : bus :=
@@ -1016,10 +1005,10 @@ Proof.
   { cbn. rewrite map_map. reflexivity. }
   assert (D4 : d_messages d = map (dmsg_m (b_enums (strip_bus b))) (b_messages (strip_bus b))).
   { cbn. rewrite map_map. apply map_ext. intros m. symmetry. apply dmsg_m_strip. }
-  assert (D5 : d_comments d = doc_cms (strip_bus b)) by (symmetry; apply doc_cms_strip).
-  assert (D6 : d_valencs d = bus_vencs (strip_bus b)) by (symmetry; apply bus_vencs_strip).
-  destruct (import_struct_m (strip_bus b) L d Hsb eq_refl D2 eq_refl D4 D5 D6 eq_refl) as [st' [msgs' [env [HI [HF [HS HL]]]]]].
-  cbn [b_name b_desc b_nodes b_messages b_enums strip_bus] in HI, HF, HS, HL.
+  assert (D5 : d_comments d = doc_cms (xbus (strip_bus b))) by (rewrite xbus_strip; symmetry; apply doc_cms_strip).
+  assert (D6 : d_valencs d = bus_vencs (xbus (strip_bus b))) by (rewrite xbus_strip; symmetry; apply bus_vencs_strip).
+  destruct (import_struct_m (strip_bus b) L d Hsb eq_refl D2 eq_refl D4 D5 D6 eq_refl) as [st' [msgs' [HI [HF HS]]]].
+  cbn [b_name b_desc b_nodes b_messages b_enums strip_bus] in HI, HF, HS.
   destruct (attrs_map_ok (TM_bus b) HT) as [amap [Hfold Hlk]]. cbv zeta in Hfold.
   pose proof (all_t_ok_m b amap Hab Hlk) as Hok.
   destruct Hsb as [_ [_ [Hnn [Hdm [_ [Hms [Hcan [_ [_ Hes]]]]]]]]].
@@ -1028,11 +1017,10 @@ Proof.
   pose proof (strip_msgs_m _ _ _ Hms) as Hms'.
   apply Forall2_map_l in HF.
   assert (HB : Forall2 (fun m m' => Base (b_enums b) (is_enums st') (strip_msg m) m') (b_messages b) msgs').
-  { eapply Forall2_conj_base; [exact Hms'| | |exact HF].
-    - intros m _ s _. apply enum_wf_nth. assumption.
-    - intros m s Hm Hs. apply (HL (strip_msg m) s); [apply in_map; assumption|assumption]. }
+  { eapply Forall2_conj_base; [exact Hms'| |exact HF].
+    intros m _ s _. apply enum_wf_nth. assumption. }
   assert (Hcan' : map m_canid msgs' = map m_canid (b_messages b)).
-  { eapply Forall2_map_eq; [exact HF|]. intros m m' _ HR. destruct (Rmsg_m_head _ _ _ _ _ HR) as [E _]. exact E. }
+  { eapply Forall2_map_eq; [exact HF|]. intros m m' _ HR. destruct (Rmsg_m_head _ _ _ _ HR) as [E _]. exact E. }
   assert (Hrel : Rs (Rn (is_sigmap st')) 0 (b_messages b) msgs').
   { eapply build_Rs; [exact Hms'|exact HB|exact HS]. }
   exists (all_result b (is_enums st') msgs'). split.
@@ -1060,7 +1048,7 @@ Proof.
         assert (Hsend : exists m, In m (b_messages b) /\ m_sender x = clear (m_sender m)).
         { clear - HF Hx. induction HF as [|m m' r r' HR HF IH]; cbn [zipf] in Hx; [destruct Hx|].
           destruct Hx as [<-|Hx].
-          - exists m. split; [left; reflexivity|]. rewrite fin_msg_n_sender. destruct (Rmsg_m_head _ _ _ _ _ HR) as [_ [E _]]. exact E.
+          - exists m. split; [left; reflexivity|]. rewrite fin_msg_n_sender. destruct (Rmsg_m_head _ _ _ _ HR) as [_ [E _]]. exact E.
           - destruct (IH Hx) as [m1 [Hm1 Hs1]]. exists m1. split; [right; assumption|assumption]. }
         destruct Hsend as [m [Hm Hs]]. rewrite Forall_forall in Hms'.
         destruct (Hms' m Hm) as [_ [_ [_ [_ [_ [_ [_ [_ [_ [Hsn _]]]]]]]]]]. cbn [m_sender strip_msg] in Hsn.
@@ -1112,9 +1100,9 @@ Definition example_all_bus : bus :=
         [ mksignal 0 "a" KStandard 0 None [] 8 false fl_one fl_zero fl_zero (mkfl 255 0) "" 0 0 0 "first" fl_zero 0 [a_flt (mkfl 1 1)];
           mksignal 1 "mode sel" KMux 8 None [] 0 false fl_one fl_zero fl_zero fl_zero "" 0 4 16 "the switch" fl_zero 3 [a_flt (mkfl 3 (-1))];
           std_sig 2 "c0" 0 8 (Some 1) [0] "";
-          mksignal 3 "c1" KStandard 0 (Some 1) [1] 4 false fl_one fl_zero fl_zero (mkfl 255 0) "" 0 0 0 "" (mkfl 3 0) 0 [a_flt (mkfl 5 (-1))];
-          mksignal 4 "c 2" KStandard 4 (Some 1) [1] 12 false fl_one fl_zero fl_zero (mkfl 255 0) "" 0 0 0 "" fl_zero 2 [];
-          std_sig 5 "z" 26 6 None [] "" ];
+          mksignal 3 "c1" KEnum 0 (Some 1) [1] 0 false fl_one fl_zero fl_zero fl_zero "" 0 0 0 "an enum child" (mkfl 3 0) 0 [a_flt (mkfl 5 (-1))];
+          mksignal 4 "c 2" KStandard 4 (Some 1) [1] 12 false fl_one fl_zero fl_zero (mkfl 255 0) "" 0 0 0 "a described child" fl_zero 2 [];
+          mksignal 5 "z" KEnum 26 None [] 0 false fl_one fl_zero fl_zero fl_zero "" 0 0 0 "an enum beside the switch" fl_zero 0 [] ];
       mkmessage 512 "other" 1 BigEndian 0 20 0 0 "GW" [] "second" []
         [ mksignal 0 "n" KEnum 0 None [] 0 false fl_one fl_zero fl_zero fl_zero "" 0 0 0 "" fl_zero 3 [a_flt (mkfl 1 1)] ] ].
 
